@@ -169,7 +169,7 @@ func (b *c17b) url(l string) string {
 var (
 	c17ClassicNames = []string{"a", "b", "c", "alertname", "severity", "team_x", "_u", "job"}
 	c17UTF8Names    = []string{"名", "with space", "dotted.name", "dash-name", "é", "0lead", "q\"uote", "a/b"}
-	c17Values       = []string{"", "x", "y", "z", "a b", "q\"uote", "back\\slash", "new\nline", "世界", "{}", "a,b", "tick`", "1", "true", "null", "~", "a=b", " lead", "trail "}
+	c17Values       = []string{"", "x", "y", "z", "a b", "q\"uote", "back\\slash", "new\nline", "cr\r\nlf", "tab\there", "世界", "{}", "a,b", "tick`", "1", "true", "null", "~", "a=b", " lead", "trail "}
 	c17Regexes      = []string{".*", "x|y", "[a-c]+", "a.b", "(x)?y", "\\d+", "a{2}", "^x$", "世.*", ".+", "x", "(?i)crit", "a\\.b", "[^z]"}
 	c17Durations    = []string{"1ms", "1s", "30s", "90s", "5m", "1h", "2h30m", "1d", "1w", "1y", "36h", "10m"}
 	c17TmplText     = []string{"plain", "{{ .CommonLabels.alertname }}", "{{ template \"x\" . }}", "multi\nline", "quote\"d", "", "世"}
